@@ -8,10 +8,20 @@
    The lexer and parser models are tied to the code on the same fault-injected sources by case
    files evaluated with Corr/CorrC12.v (token and lexer-error locations) and Corr/CorrC11.v (trees
    with every node location, parser-error locations). *)
-From Coq Require Import ZArith Bool List.
+From Coq Require Import ZArith Bool List String Ascii.
 Require Import X.Base.Value X.File.Source.
 Import ListNotations.
 Open Scope Z_scope.
+
+(* rune lists are written by the harness as strings of six lower-case hexadecimal digits per rune
+   (long list literals are slow to parse) *)
+Definition hexv (a : ascii) : Z := let n := Z.of_N (N_of_ascii a) in if n <? 58 then n - 48 else n - 87.
+Fixpoint hx (s : string) : list Z :=
+  match s with
+  | String a (String b (String c (String d (String e (String f r))))) =>
+      (((((hexv a * 16 + hexv b) * 16 + hexv c) * 16 + hexv d) * 16 + hexv e) * 16 + hexv f) :: hx r
+  | _ => []
+  end.
 
 Inductive c13case :=
 | CSnip (src : list Z) (line : Z) (found : bool) (text : list Z)
